@@ -64,6 +64,27 @@ CHECKS = [
              "Copy-on-Write; timestamps as integers (absolute time); dropna().empty as a monotone predicate of the window",
      "not_covered": ["unsorted input (pandas raises)", "values inside the slice beyond 'only the last row is blanked' (frame ghost state)"],
      },
+    {"id": "C07", "level": "proof", "modules": ["contracts.C07_mask", "contracts.C19_aggregation"], "bounded": [],
+     "technique": "deductive verification on a row-wise model of pandas (pyvc symbolic execution of the real _predict on one arbitrary row, z3)",
+     "text": "The real DailyModel._predict (with _initialize_data, _meter_segment, _predict_submodel) is executed on one arbitrary row with "
+             "explicitly tagged NaN / +-inf cells: in the returned frame predicted is present iff observed is present, a day without a finite "
+             "temperature has its usage masked, a day without usage gets no prediction, reported usage values are the supplied ones; for every "
+             "split layout tried and with/without a usage column.",
+     "note": "assumed pandas row-wise contracts (filters, dropna, isfinite, loc-assignment, isin on unique labels, left join, concat, sort_index); "
+             "billing aggregation is covered by C19",
+     "not_covered": ["frames with duplicated index labels (data classes remove duplicates)", "frames carrying extra columns with NaN cells"],
+     },
+    {"id": "C19", "level": "proof", "modules": ["contracts.C19_aggregation"], "bounded": [],
+     "technique": "deductive verification: the real BillingModel.predict executed on the row-wise model with abstract aggregates (pyvc, z3)",
+     "text": "For every aggregation argument (all strings symbolically, plus non-string values) the real BillingModel.predict is executed: "
+             "unaggregated iff None/any-case 'none', 'monthly' -> MS, 'bimonthly' -> 2MS, anything else rejected; each output column is the "
+             "documented aggregate (sum / mean / root-sum-square / first) of the same prediction frame on its own index with the same period "
+             "key, which with the partition law of sums gives conservation of totals across aggregation levels; no column is required that "
+             "_predict need not return.",
+     "note": "resample().agg() is an abstract aggregate (assumed: groups by calendar period of the series' own index); _predict by its C07 contract; "
+             "one row per calendar period and the partition law are exercised by the bounded part",
+     "not_covered": ["pandas' binning of resample('MS'/'2MS') itself"],
+     },
 ]
 _NOT_BUILT = "machinery for this property is not built yet (see DESIGN.md §7 build order); not claimed"
 NOT_APPLICABLE = [{"property_id": f"C{n:02d}", "reason": _NOT_BUILT} for n in range(1, 21) if n != 15 and f"C{n:02d}" not in {c["id"] for c in CHECKS}] + [
